@@ -404,7 +404,7 @@ impl<'a> Machine<'a> {
     fn ea(&mut self, b: u8, d: i64) -> Res<u64> {
         let base = self.need(self.regs[b as usize], &format!("address formation via {}", name(b)))?;
         if b == SP && base % 16 != 0 {
-            self.c.out.soft.push(Viol::new(
+            self.c.soft(Viol::new(
                 Class::Align,
                 format!("stack access at line {} with SP not 16-byte aligned (SP alignment fault)", self.line()),
             ));
@@ -566,7 +566,7 @@ impl<'a> Machine<'a> {
                     let base = self.need(self.regs[*b as usize], "address formation")?;
                     let a = base.wrapping_add(*d as u64);
                     if *b == SP && base % 16 != 0 {
-                        self.c.out.soft.push(Viol::new(Class::Align, format!("stack access at line {} with SP not 16-byte aligned", self.line())));
+                        self.c.soft(Viol::new(Class::Align, format!("stack access at line {} with SP not 16-byte aligned", self.line())));
                     }
                     let nsp = if *b == SP { a.min(sp) } else { sp };
                     let (v1, v2) = (self.get(*t1), self.get(*t2));
@@ -597,7 +597,7 @@ impl<'a> Machine<'a> {
                         _ => return Err(Viol::new(Class::Text, format!("call of unknown runtime symbol {sym}"))),
                     };
                     if sp % 16 != 0 {
-                        self.c.out.soft.push(Viol::new(
+                        self.c.soft(Viol::new(
                             Class::Align,
                             format!("BL {sym} at line {} with SP = entry_sp{:+}, not 16-byte aligned", self.line(), sp as i64 - entry_sp as i64),
                         ));
@@ -657,7 +657,7 @@ impl<'a> Machine<'a> {
                         let e = self.entry_regs[r];
                         let c = self.regs[r];
                         if e.v != c.v || (e.u == 0) != (c.u == 0) {
-                            self.c.out.soft.push(Viol::new(
+                            self.c.soft(Viol::new(
                                 Class::Abi,
                                 format!("callee-saved register X{r} not restored at return ({:#x} instead of {:#x})", c.v, e.v),
                             ));
